@@ -65,7 +65,7 @@ def replay_fuzz(binpath, target, path, timeout=120, extra=None):
     env = dict(os.environ)
     env["FUZZ_TARGET"] = target
     env.pop("FUZZ_STATS", None)
-    env.setdefault("ASAN_OPTIONS", "detect_leaks=1:abort_on_error=0")
+    env.setdefault("ASAN_OPTIONS", "detect_leaks=1:abort_on_error=0:malloc_context_size=8")
     cmd = [binpath] + (extra or []) + [path]
     return run_cmd(cmd, timeout=timeout, env=env)
 
@@ -80,7 +80,7 @@ def replay_case(binpath, pid, path, known_ids, timeout=600):
     if known_ids:
         cmd += ["--known", ",".join(known_ids)]
     env = dict(os.environ)
-    env.setdefault("ASAN_OPTIONS", "detect_leaks=0:abort_on_error=0:allocator_may_return_null=1")
+    env.setdefault("ASAN_OPTIONS", "detect_leaks=0:abort_on_error=0:allocator_may_return_null=1:quarantine_size_mb=64:malloc_context_size=5")
     env.setdefault("TSAN_OPTIONS", "halt_on_error=1")
     rc, out = run_cmd(cmd, timeout=timeout, env=env)
     return rc, out
@@ -117,6 +117,10 @@ def cmd_check(args):
             # an engine whose only difference from an already built control engine is the instantiation the property is about
             # (e.g. move-only value types): "does not compile while the control compiles" is the property failing, not the harness
             ctl = spec.get("build_failure_is_violation", {}).get(e)
+            if ctl and ctl not in bins and ctl not in engines:
+                okc, pathc, _ = BUILD.ensure(ctl, REPO)      # the control engine is not one of this property's own engines: build it for the comparison
+                if okc:
+                    bins[ctl] = pathc
             if ctl and ctl in bins:
                 os.makedirs(viol_dir, exist_ok=True)
                 lp = os.path.join(viol_dir, "%s_build_%s.log" % (pid, e))
@@ -259,7 +263,9 @@ def cmd_check(args):
     def run_job(job):
         j, ji, w, cmd, out, to = job
         env = dict(os.environ)
-        env.setdefault("ASAN_OPTIONS", "detect_leaks=0:abort_on_error=0:allocator_may_return_null=1")
+        # malloc_context_size: rapidcheck's deep and ever-changing call stacks make ASan's stack depot grow without bound (workers of the
+        # thorough tier reached 6 GB and were OOM-killed); 5 frames per allocation keep it flat, the faulting stack itself is still printed in full
+        env.setdefault("ASAN_OPTIONS", "detect_leaks=0:abort_on_error=0:allocator_may_return_null=1:quarantine_size_mb=64:malloc_context_size=5")
         env.setdefault("UBSAN_OPTIONS", "print_stacktrace=1")
         env.setdefault("TSAN_OPTIONS", "halt_on_error=1:second_deadlock_stack=1")
         t = time.time()
@@ -279,7 +285,7 @@ def cmd_check(args):
         env = dict(os.environ)
         env["FUZZ_TARGET"] = tgt
         env["FUZZ_STATS"] = os.path.join(d, "stats.json")
-        env.setdefault("ASAN_OPTIONS", "detect_leaks=1:abort_on_error=0")
+        env.setdefault("ASAN_OPTIONS", "detect_leaks=1:abort_on_error=0:malloc_context_size=8")
         fseed = derive_seed(seed, pid, ji, w) % 0x7FFFFFFF or 1
         cmd = [bins[j["engine"]], "-seed=%d" % fseed, "-runs=%d" % cfg["runs"], "-max_len=%d" % cfg.get("max_len", 256), "-timeout=%d" % cfg.get("timeout", 10),
                "-rss_limit_mb=3000", "-artifact_prefix=" + d + "/", "-print_final_stats=0", cdir]
